@@ -83,6 +83,9 @@ type vsRun struct {
 	importedFiles     map[string]bool // captures whose import completion was delivered
 	maybeFiles        map[string]bool // unused
 	maybeQueue        []string        // import queue when a crash copy was taken with an import job parked
+	startedHeld       int             // jobs that were held before their body and started later
+	outOfOrder        bool            // a capture arrived before an earlier one
+	convMayBeStale    bool            // an import was delivered while a converter job was in flight: the job works on an older copy of the index files, its output for changed streams is dropped when its completion is delivered
 }
 
 func (r *vsRun) log(f string, a ...any) {
@@ -186,21 +189,36 @@ func (r *vsRun) noteInvalidation() {
 
 func (r *vsRun) stepImport() {
 	rt := r.rt
-	if r.nextCapture >= r.tr.captures() {
+	var remaining []int
+	for i := 0; i < r.tr.captures(); i++ {
+		if _, ok := r.tr.Written[i]; !ok {
+			remaining = append(remaining, i)
+		}
+	}
+	if len(remaining) == 0 {
 		rt.Skip("all captures imported")
 	}
 	k := rapid.IntRange(1, 2).Draw(rt, "ncaps")
 	var names []string
 	var idxs []int
-	for i := 0; i < k && r.nextCapture < r.tr.captures(); i++ {
-		n, err := r.tr.writeCapture(r.e.dirs, r.nextCapture)
+	for i := 0; i < k && len(remaining) != 0; i++ {
+		// mostly chronological arrival; sometimes a later capture arrives first, so that an earlier one
+		// arriving afterwards resets streams
+		pick := 0
+		if len(remaining) > 1 && rapid.IntRange(0, 3).Draw(rt, "outoforder") == 0 {
+			pick = rapid.IntRange(1, len(remaining)-1).Draw(rt, "whichcap")
+			r.outOfOrder = true
+		}
+		ci := remaining[pick]
+		remaining = append(remaining[:pick], remaining[pick+1:]...)
+		n, err := r.tr.writeCapture(r.e.dirs, ci)
 		if err != nil {
 			r.fatalf("write capture: %v", err)
 		}
 		names = append(names, n)
-		idxs = append(idxs, r.nextCapture)
-		r.nextCapture++
+		idxs = append(idxs, ci)
 	}
+	r.nextCapture = r.tr.captures() - len(remaining)
 	r.log("import %v", names)
 	r.e.mgr.ImportPcaps(names)
 	r.pendingImports = append(r.pendingImports, idxs)
@@ -320,6 +338,29 @@ func (r *vsRun) stepDeliver() {
 	r.deliverKind(k)
 }
 
+// stepHold arranges that the next job of a kind is held before its body runs.
+func (r *vsRun) stepHold() {
+	k := rapid.SampledFrom(veKinds).Draw(r.rt, "holdkind")
+	r.e.mu.Lock()
+	r.e.holdNext[k] = true
+	r.e.mu.Unlock()
+	r.log("hold next %s", k)
+}
+
+// stepStart lets a held job run its body (it then parks at its gate).
+func (r *vsRun) stepStart() {
+	hk := r.e.heldKinds()
+	if len(hk) == 0 {
+		r.rt.Skip("nothing held")
+	}
+	k := hk[rapid.IntRange(0, len(hk)-1).Draw(r.rt, "whichheld")]
+	r.log("start %s", k)
+	if _, err := r.e.start(k); err != nil {
+		r.fatalf("start %s: %v", k, err)
+	}
+	r.startedHeld++
+}
+
 func (r *vsRun) deliverKind(k string) {
 	if k == "import" || k == "convert" {
 		r.noteInvalidation()
@@ -343,7 +384,14 @@ func (r *vsRun) deliverKind(k string) {
 	}
 	r.kindsDelivered[k] = true
 	switch k {
+	case "convert":
+		r.convMayBeStale = false
+	}
+	switch k {
 	case "import":
+		if r.e.parkedCount("convert") > 0 {
+			r.convMayBeStale = true
+		}
 		r.importsDone++
 		var queueAfter int
 		_ = r.e.inLoop(func() { queueAfter = len(r.e.mgr.importJobs) })
@@ -386,6 +434,13 @@ func (r *vsRun) deliverKind(k string) {
 // settleAll delivers parked jobs oldest first through deliverKind (which keeps the bookkeeping) until quiescence.
 func (r *vsRun) settleAll(bound int) {
 	for n := 0; ; n++ {
+		if hk := r.e.heldKinds(); len(hk) != 0 {
+			r.log("start %s", hk[0])
+			if _, err := r.e.start(hk[0]); err != nil {
+				r.fatalf("%v", err)
+			}
+			continue
+		}
 		ks := r.e.parkedKinds()
 		if len(ks) == 0 {
 			f, err := r.e.flags()
@@ -613,7 +668,7 @@ func (r *vsRun) invariants() {
 				return f.MainFeatures&query.FeatureFilterData != 0 || len(f.MainTags) != 0
 			})
 		}
-		if r.cfg.focus == "C16" {
+		if r.cfg.focus == "C16" && !r.convMayBeStale {
 			msg16 = r.checkConvertersInLoop()
 		}
 	})
@@ -914,6 +969,8 @@ func vsScenario(rt *rapid.T, c *vlib.Case, t *testing.T, cfg vsConfig, open map[
 	add("conv", cfg.wConv, r.stepConv)
 	add("view", cfg.wView, r.stepView)
 	add("deliver", cfg.wDeliver, r.stepDeliver)
+	add("hold", 1, r.stepHold)
+	add("start", 2, r.stepStart)
 	add("reset", cfg.wReset, r.stepReset)
 	rt.Repeat(actions)
 	r.finalChecks()
@@ -926,6 +983,8 @@ func vsScenario(rt *rapid.T, c *vlib.Case, t *testing.T, cfg vsConfig, open map[
 	c.LabelIf(r.invalWhileTagJob > 0, "invalidation-during-tagging-job")
 	c.LabelIf(r.heldAcrossMerge, "files-held-across-merge")
 	c.LabelIf(r.maxParked >= 2, "two-jobs-parked")
+	c.LabelIf(r.startedHeld > 0, "job-body-delayed")
+	c.LabelIf(r.outOfOrder, "capture-arrived-out-of-order")
 	nontrivial := false
 	switch cfg.focus {
 	case "C06":
